@@ -42,6 +42,7 @@ Definition sql_guard (vr : variant) (d : dialect) (m : string) (args : list sval
 Definition np_guard (m : string) (args : list sval) : bool :=
   if String.eqb m "mapv" then mapv_values_good args else true.                                       (* infinite dictionary values: not expressible in expression text *)
 Definition pl_guard (m : string) (args : list sval) : bool :=
-  if str_in m ["maximum"; "minimum"] then no_missing args                                            (* finding C05-polars-maxmin-ignore-missing *)
-  else if String.eqb m "is_inf" then not_null args                                                   (* finding C05-polars-is-inf-null *)
+  (* finding C05-polars-maxmin-skip-nan: max_horizontal skips a float NaN next to a present operand (null operands are
+     propagated since /repo 73dee51, and is_inf of a null is False since then) *)
+  if str_in m ["maximum"; "minimum"] then negb (existsb (fun v => match v with SNaN => true | _ => false end) args && existsb (fun v => negb (missing v)) args)
   else true.
